@@ -5,7 +5,8 @@ MODULES = ["contracts.comm", "contracts.primitivedata", "lemmas.c03"]
 FUNCTIONS = []
 LEMMAS = (["C03.any_decode[%d tags]" % n for n in range(6)]
           + ["C03.rep_roundtrip[choice %s, any %s]" % (a, e) for a in (None, 'num', 'flag', 'inner') for e in (None, 'atomic', 'constructed')]
-          + ["C03.namevalue_roundtrip"])
+          + ["C03.namevalue_roundtrip"]
+          + ["C03.%s_roundtrip[%s elements]" % (k, c) for k in ("arrayof", "listof") for c in ("atomic", "constructed")] + ["C03.arrayof_item_roundtrip"])
 MIN_OBLIGATIONS = 60
 BOUNDED = "bounded.c03"
 ASSUMPTIONS = [
@@ -15,7 +16,7 @@ ASSUMPTIONS = [
 ]
 NOT_DECIDED = [
     "the Annex F worked examples (exact published octets): concrete test vectors, not a contract; those present in the repository's tests are run by the bounded stage",
-    "ArrayOf / ListOf encode-decode and AnyAtomic outside NameValue (bounded stage only)",
+    "AnyAtomic outside NameValue (bounded stage only); ArrayOf / ListOf with more than 3 elements (structural bound of the container lemmas)",
 ]
 EXPLANATION = ("Any.decode takes exactly the maximal prefix of the tag list in which every closing tag closes an earlier opening tag -- any tag numbers, any nesting depth within "
                "the bound of 5 tags --, leaves the rest for the enclosing decoder and refuses only an unclosed opening tag; Any.encode gives the same tags back. For the "
